@@ -161,6 +161,20 @@ def run_case(vk, case):
                                      "failure": {"rule": "score_profile_from_rankings", "kind": "inexact-total" if tot != want else "wrong-score"}})
                 if any(not isinstance(v, Fraction) for v in out[1].values()):
                     monitors.append({"name": "exact-type", "detail": "non-Fraction score", "failure": {"rule": "score", "kind": "type"}})
+            # the to_float=True variant is the rounding of the exact result, candidate by candidate
+            fl = run_impl({"score": lambda: U.score_profile_from_rankings(profile, vec_py, to_float=True) if op == "score" else None,
+                           "fpv": lambda: U.first_place_votes(profile, to_float=True),
+                           "borda": lambda: U.borda_scores(profile, to_float=True),
+                           "mentions": lambda: U.mentions(profile, to_float=True)}[op])
+            if fl[0] != "ok":
+                monitors.append({"name": "float-variant-raises", "detail": str(fl[1])[:200], "failure": {"rule": op, "kind": "float-variant"}})
+            else:
+                bad = [str(c) for c, v in out[1].items() if repr(fl[1].get(c)) != repr(float(Fraction(v)))]
+                if bad:
+                    c = bad[0]
+                    monitors.append({"name": "float-variant-is-not-the-rounded-exact-score",
+                                     "detail": f"{c}: to_float gives {fl[1].get(c)!r}, exact {out[1][c]} rounds to {float(Fraction(out[1][c]))!r}",
+                                     "failure": {"rule": op, "kind": "float-variant"}})
         else:
             expect = {"exn": out[1]}
         return {"req": req, "expect": expect, "monitors": monitors, "tags": tags, "nontrivial": len(spec["b"]) > 0}
